@@ -65,11 +65,15 @@ def txOp3 (s : Sess) (toks : List String) : Option (P Val String) :=
 /-- top-level 3-D commands: the iterators -/
 def top3 (s : Sess) (toks : List String) : Option (Sess × String) :=
   if s.dim ≠ 3 then none else
+  let pr (r : Option (List Nat)) : Option (Sess × String) :=
+    match r with
+    | some l => some (s, "ok " ++ natsStr l)
+    | none => some (s, "panic")
   match toks with
-  | ["iterv"] => some (s, "ok " ++ natsStr (iterVertices3 s.m))
-  | ["itere"] => some (s, "ok " ++ natsStr (iterEdges3 s.m))
-  | ["iterf"] => some (s, "ok " ++ natsStr (iterFaces3 s.m))
-  | ["itervol"] => some (s, "ok " ++ natsStr (iterVolumes3 s.m))
+  | ["iterv"] => pr (iterCellsChk s.m (vertexId3 s.m.n))
+  | ["itere"] => pr (iterCellsChk s.m (edgeId3 s.m.n))
+  | ["iterf"] => pr (iterCellsChk s.m (faceId3 s.m.n))
+  | ["itervol"] => pr (iterCellsChk s.m (volumeId3 s.m.n))
   | _ => none
 
 end HC
